@@ -340,10 +340,29 @@ C05Detectors == {"address_balance", "address_zero", "bool_equals_bool", "assign_
 C06Detectors == {"payable_function", "private_constant", "private_vars_leading_underscore", "private_func_leading_underscore", "constructor_order"}
 C07Detectors == {"unsafe_erc20_operation", "divide_before_multiply", "floating_pragma", "unprotected_selfdestruct"}
 C08Detectors == {"constant_variables", "immutable_variables", "memory_to_calldata", "sstore"}
+\* Detectors whose verdict is the subject of C09 / C10: here only WHERE they may report (C02) -- on a line on which a
+\* construct of their kind begins.  string_errors / short_revert_string: a require call or its last argument, a string
+\* literal; safe_math_*: a call add/sub/mul/div on a member; pack_*: a contract / a struct definition.
+LineOnlyDetectors == {"string_errors", "short_revert_string", "safe_math_pre_080", "safe_math_post_080",
+                      "pack_storage_variables", "pack_struct_variables"}
+RequireWithString(T) == {n \in N(T) : IsCallTo(T, n, {"require"}) /\ LET as == SlotCh(T, n, "args") IN
+                                          as # <<>> /\ K(T, as[Len(as)]) = "E.StringLiteral"}
+StringErrMay(T) == RequireWithString(T) \cup {LET as == SlotCh(T, n, "args") IN as[Len(as)] : n \in RequireWithString(T)}
+SafeMathMay(T) == {n \in N(T) : K(T, n) = "E.FunctionCall" /\ Kid(T, n, "callee") # 0 /\ K(T, Kid(T, n, "callee")) = "E.MemberAccess"
+                                 /\ A(T, Kid(T, n, "callee")).member \in {"add", "sub", "mul", "div"}}
+PackStorageMay(T) == OfKind(T, {"SUP.ContractDefinition"})
+PackStructMay(T) == OfKind(T, {"SUP.StructDefinition", "CP.StructDefinition"})
+LineOnlyMay(d, T) ==
+    CASE d \in {"string_errors", "short_revert_string"} -> LinesOf(T, StringErrMay(T))
+      [] d \in {"safe_math_pre_080", "safe_math_post_080"} -> LinesOf(T, SafeMathMay(T))
+      [] d = "pack_storage_variables" -> LinesOf(T, PackStorageMay(T))
+      [] d = "pack_struct_variables" -> LinesOf(T, PackStructMay(T))
+
 NeedsDomain == {"private_constant", "private_vars_leading_underscore", "constant_variables", "immutable_variables", "memory_to_calldata", "sstore"}
 
 MustLines(d, T) ==
-    CASE d = "address_balance" -> LinesOf(T, BalanceMust(T))
+    CASE d \in LineOnlyDetectors -> {}
+      [] d = "address_balance" -> LinesOf(T, BalanceMust(T))
       [] d = "address_zero" -> LinesOf(T, AddrZeroMust(T))
       [] d = "bool_equals_bool" -> LinesOf(T, BoolEqMust(T))
       [] d = "assign_update_array_value" -> LinesOf(T, ArrayUpdMust(T))
@@ -369,7 +388,8 @@ MustLines(d, T) ==
       [] d = "sstore" -> LinesOf(T, SstoreMust(T))
 
 MayLines(d, T) ==
-    CASE d = "address_balance" -> LinesOf(T, BalanceMay(T))
+    CASE d \in LineOnlyDetectors -> LineOnlyMay(d, T)
+      [] d = "address_balance" -> LinesOf(T, BalanceMay(T))
       [] d = "address_zero" -> LinesOf(T, AddrZeroMay(T))
       [] d = "bool_equals_bool" -> LinesOf(T, BoolEqMay(T))
       [] d = "assign_update_array_value" -> LinesOf(T, ArrayUpdMay(T))
